@@ -436,7 +436,7 @@ fn l1_oversize(cfg: &RunCfg) -> Outcome {
 /// disconnect, drop} x up to 3 sender hands, decoded from the run index (base 13, shorter
 /// sequences first). Event contents still come from the tape.
 fn interleavings(cfg: &RunCfg) -> Outcome {
-    let depth = if cfg.tier == crate::run::Tier::Thorough { 6 } else { 5 };
+    let depth = if cfg.tier == crate::run::Tier::Thorough { 7 } else { 5 };
     let mut idx = cfg.index;
     let mut len = 1usize;
     let mut block = 13u64;
@@ -609,10 +609,10 @@ pub fn spec() -> PropertySpec {
     PropertySpec {
         id: "C11",
         level: "exploration",
-        rule: "Level 1: Response::event_stream() with the real channel (safina::sync::sync_channel(50)), EventSender, EventReceiver, write_http_response and copy_chunked_async; the response writer future is polled by hand between sender steps, and ONLY when its waker fired (a lost wake-up is a verdict). An enumerated stage runs EVERY interleaving of up to 5 (quick) / 6 (thorough) steps over {writer poll, send, clone, disconnect, drop} for up to 3 senders; the sampled stage draws interleavings of {send(e_i), clone, disconnect, drop, is_connected, writer poll} for 1-4+ senders, 3-26 steps (130 to overrun the queue), with a sink that takes 1..n bytes per call, returns Pending, stalls for half the run, or fails after k bytes (client gone; the response is then dropped as the server does). Event contents over empty, multi-line with LF / CRLF / lone CR, trailing newline, leading space/colon, data:/event:/id:/retry: look-alikes, NUL, BOM, non-ASCII, custom types incl. empty / with colon / leading space, sizes just under the 65528-byte read limit; each event carries a unique id. Oracle: independent chunked decoder + independent WHATWG event-stream parser; accepted events (sender connected before and after send) must equal dispatched events in order, exactly once, with type and LF-normalised data recovered; no id/retry/unknown field may appear; a send may fail only if the queue can be full or the client is gone; terminating chunk iff all senders gone. Level 2: same through the full simulated server with sender actors, slow clients (back-pressure) and client RST. distinct = hash of the step trace.",
+        rule: "Level 1: Response::event_stream() with the real channel (safina::sync::sync_channel(50)), EventSender, EventReceiver, write_http_response and copy_chunked_async; the response writer future is polled by hand between sender steps, and ONLY when its waker fired (a lost wake-up is a verdict). An enumerated stage runs EVERY interleaving of up to 5 (quick) / 7 (thorough) steps over {writer poll, send, clone, disconnect, drop} for up to 3 senders; the sampled stage draws interleavings of {send(e_i), clone, disconnect, drop, is_connected, writer poll} for 1-4+ senders, 3-26 steps (130 to overrun the queue), with a sink that takes 1..n bytes per call, returns Pending, stalls for half the run, or fails after k bytes (client gone; the response is then dropped as the server does). Event contents over empty, multi-line with LF / CRLF / lone CR, trailing newline, leading space/colon, data:/event:/id:/retry: look-alikes, NUL, BOM, non-ASCII, custom types incl. empty / with colon / leading space, sizes just under the 65528-byte read limit; each event carries a unique id. Oracle: independent chunked decoder + independent WHATWG event-stream parser; accepted events (sender connected before and after send) must equal dispatched events in order, exactly once, with type and LF-normalised data recovered; no id/retry/unknown field may appear; a send may fail only if the queue can be full or the client is gone; terminating chunk iff all senders gone. Level 2: same through the full simulated server with sender actors, slow clients (back-pressure) and client RST. distinct = hash of the step trace.",
         scenarios: vec![
             Scenario { name: "c11.sender_writer", property: "C11", func: l1, runs_quick: 600_000, runs_thorough: 15_000_000, doc: "level 1" },
-            Scenario { name: "c11.interleavings", property: "C11", func: interleavings, runs_quick: 13 + 169 + 2197 + 28_561 + 371_293, runs_thorough: 13 + 169 + 2197 + 28_561 + 371_293 + 4_826_809, doc: "EVERY interleaving of up to 5 (quick) / 6 (thorough) steps over writer poll and {send, clone, disconnect, drop} of up to 3 senders" },
+            Scenario { name: "c11.interleavings", property: "C11", func: interleavings, runs_quick: 13 + 169 + 2197 + 28_561 + 371_293, runs_thorough: 13 + 169 + 2197 + 28_561 + 371_293 + 4_826_809 + 62_748_517, doc: "EVERY interleaving of up to 5 (quick) / 7 (thorough) steps over writer poll and {send, clone, disconnect, drop} of up to 3 senders" },
             Scenario { name: "c11.oversize", property: "C11", func: l1_oversize, runs_quick: 60_000, runs_thorough: 1_000_000, doc: "events may exceed the 65528-byte read buffer" },
             Scenario { name: "c11.server", property: "C11", func: server_level, runs_quick: 120_000, runs_thorough: 3_000_000, doc: "level 2" },
         ],
